@@ -530,6 +530,28 @@ func checkC06(raw json.RawMessage) iso.Result {
 				}
 			}
 		}
+		// response status: the attempt that produced the response (after the last restart) decides it — the
+		// origin of the harness always answers 200; an attempt that
+		// never entered vcl_error must not deliver the synthetic object of an abandoned attempt
+		if rep.Error == "" && len(got) > 0 && fmt.Sprint(got) == fmt.Sprint(want) {
+			last := 0
+			for i, s := range want {
+				if s == "vcl_recv" {
+					last = i
+				}
+			}
+			final := strings.Join(want[last:], " ")
+			if strings.Contains(final, "vcl_deliver") {
+				st := rep.ClientResponse.StatusCode
+				switch {
+				case strings.Contains(final, "vcl_error"):
+					// (601, 503 or 500 depending on how the error was raised: not judged)
+				case st != 200:
+					col.Failf("the response has status %d although the attempt that produced it never entered vcl_error (the origin answers 200)\n%s", st, ctx())
+				}
+				col.Label("checked:status")
+			}
+		}
 		if k == 0 && lookups > 0 && lastBranch == "vcl_hit" && restarts == 0 {
 			col.Failf("hit on the first request to a fresh simulator\n%s", ctx())
 		}
